@@ -96,6 +96,8 @@ func apply(kind, tok string, old []byte) ([]byte, error) {
 		return []byte(strings.Repeat(tok, len(old))), nil
 	case "grow":
 		return []byte(strings.Repeat(tok, len(old)+1)), nil
+	case "grow3":
+		return []byte(strings.Repeat(tok, len(old)+3)), nil
 	case "ferr":
 		return nil, errors.New("transform function failed")
 	}
